@@ -20,6 +20,9 @@ Definition rz_B0 : @bstate Z unit := fun p _ => match p with 0%nat => rz_state 0
 Definition rz_run := run_ops 0 Z.add Z.mul Z.sub Z.eqb false (fun _ => rz_level) (fun _ => rz_xfer) (fun _ => 0) (fun _ => rz_end).
 Definition rz_uend (s : @lvst Z unit) : Z := end_value 0 Z.add Z.mul false (fun _ => rz_level) (fun _ => rz_end) 0%nat s tt.
 
+Definition rz_six : Z := 6.
+Definition rz_two : Z := 2.
+
 (* after the communication of IT_CHECK, step 2 starts from 6 (what step 1 had sent), while the end value of the state step 1 now
    holds is 2; every entry is valid and has been sent *)
 Theorem quadrature_chain_inexact_refuted :
